@@ -39,6 +39,7 @@ func init() {
 			ruleC01R8(r)
 			ruleFlushRendezvous(r, "R9")
 			ruleC01R10(r)
+			ruleNoAliasAfterTruncate(r, "R11", "/iscp")
 		},
 	})
 }
